@@ -192,6 +192,17 @@ def execute(case):
 
     saved_dt = mod.datetime
     mod.datetime = wall.datetime_class()
+    # every other module of the package that imported the datetime class gets the simulated
+    # one as well: a rule that asks the wall clock itself (instead of using ts) is then seen
+    # as a clock read of a request that must not read the clock
+    import datetime as _dtmod
+    import sys as _sys
+    others = []
+    for name_, m_ in list(_sys.modules.items()):
+        if name_.startswith("ctparse") and m_ is not mod and m_ is not None \
+                and getattr(m_, "datetime", None) is _dtmod.datetime:
+            others.append(m_)
+            m_.datetime = mod.datetime
     try:
         for i, ev in enumerate(case["events"]):
             k = ev["ev"]
@@ -339,6 +350,8 @@ def execute(case):
                     del streams[ev["h"]]
     finally:
         mod.datetime = saved_dt
+        for m_ in others:
+            m_.datetime = _dtmod.datetime
     return {"viol": V, "digest": core.digest(obs), "n_eval": n_eval, "keys": keys,
             "faults": faults, "probes": probes,
             "sim_time": int(abs((t_max - t_min).total_seconds())),
